@@ -1,3 +1,4 @@
+mod c20;
 mod core;
 mod gen;
 mod proc;
@@ -10,13 +11,73 @@ mod sut;
 use core::{Scenario, Tier};
 
 fn scenarios() -> Vec<&'static dyn Scenario> {
-    vec![]
+    vec![&c20::C20Lib]
+}
+
+fn meta(prop: &str) -> (&'static str, Vec<&'static str>, serde_json::Value) {
+    let components = serde_json::json!({
+        "real": ["rasn_compiler lexer, linker/validator, rasn and TypeScript generators, Compiler builder (built from /repo's working tree, feature verif-hooks)", "Rust std I/O", "kernel tmpfs under /dev/shm"],
+        "stub": [],
+        "simulated_seams": ["libc I/O entry points (LD_PRELOAD libsimio.so: outcomes decided by the fault plan)", "getrandom (seeded entropy for RandomState)", "thread scheduling (baton over real OS threads)"],
+        "not_run": ["the rasn runtime crate (no claimed property needs generated code to be compiled)"]
+    });
+    match prop {
+        "C20" => (
+            "fault_enumeration",
+            vec![
+                "the reference for every run is compile_to_string() on the same texts in a pristine single-threaded child process",
+                "the kernel file system is the real tmpfs; the shim decides call outcomes, it does not model page cache or journalling",
+                "per workload the single-fault sweep is complete over the recorded I/O trace; workloads themselves are sampled from the seed",
+                "after a write-class hard fault the destination's content is unconstrained (fs::write truncates first; the property does not promise atomic replacement)",
+            ],
+            serde_json::json!({"components": components, "rule": "a case = (workload, fault plan): workload = generated module set x malformed variant x backend/config x delivery (literals/files) x builder path x output mode x destination state; every workload is run fault-free, then once per (call position of its recorded I/O trace x applicable fault kind), then with sampled double/triple faults. distinct = distinct (plan signature, I/O-trace signature) pairs; every run evaluates at least one oracle, so every run is non-trivial"}),
+        ),
+        _ => ("exploration", vec![], serde_json::json!({"components": components, "rule": ""})),
+    }
 }
 
 fn main() {
     let args: Vec<String> = std::env::args().collect();
     let cmd = args.get(1).map(|s| s.as_str()).unwrap_or("");
     match cmd {
+        "check" => {
+            let prop = args[2].clone();
+            let tier = Tier::parse(args.get(3).map(|s| s.as_str()).unwrap_or("quick"));
+            if !shim::present() {
+                eprintln!("HARNESS-ERROR: libsimio.so is not preloaded; run through /verif/check");
+                std::process::exit(2);
+            }
+            let all = scenarios();
+            let mine: Vec<&'static dyn Scenario> = all.into_iter().filter(|s| s.property() == prop).collect();
+            if mine.is_empty() {
+                eprintln!("HARNESS-ERROR: no scenario for property {prop}");
+                std::process::exit(2);
+            }
+            let (level, assumptions, comp) = meta(&prop);
+            let code = core::check(&prop, &mine, tier, level, &assumptions, comp);
+            std::process::exit(code);
+        }
+        "worker" => {
+            // worker <prop> <scenario> <tier> <seed> <wid> <nworkers> <deadline_s> <out>
+            let all = scenarios();
+            let scn = all.iter().find(|s| s.property() == args[2] && s.name() == args[3]).expect("scenario");
+            core::worker(
+                *scn,
+                Tier::parse(&args[4]),
+                args[5].parse().unwrap(),
+                args[6].parse().unwrap(),
+                args[7].parse().unwrap(),
+                args[8].parse().unwrap(),
+                &args[9],
+            );
+        }
+        "replay" => {
+            if !shim::present() {
+                eprintln!("HARNESS-ERROR: libsimio.so is not preloaded; run through /verif/check");
+                std::process::exit(2);
+            }
+            std::process::exit(core::replay(&args[2], &scenarios()));
+        }
         "try" => {
             let text = std::fs::read_to_string(&args[2]).unwrap();
             let be = if args.get(3).map(|s| s.as_str()) == Some("ts") {
@@ -75,5 +136,4 @@ fn main() {
             std::process::exit(2);
         }
     }
-    let _ = (scenarios(), Tier::Quick);
 }
